@@ -219,16 +219,15 @@ DOMNode* DOMTreeWalkerImpl::previousNode () {
     }
     else {
 
-        // get the lastChild of result.
+        // the previous node in document order is the deepest last visible
+        // descendant of the previous sibling
         DOMNode* lastChild  = getLastChild(node);
+        while (lastChild != 0) {
+            node = lastChild;
+            lastChild = getLastChild(node);
+        }
 
-        // if there is a lastChild which passes filters return it.
-        if (lastChild != 0) {
-            fCurrentNode = lastChild;
-        }
-        else {
-            fCurrentNode = node;
-        }
+        fCurrentNode = node;
         return fCurrentNode;
     }
 }
